@@ -47,6 +47,12 @@ func assignAliasOperator(d *dataTreeNavigator, context Context, expressionNode *
 			if anchorNode == nil {
 				return Context{}, fmt.Errorf("cannot set alias to '%v': no such anchor in the document", aliasName)
 			}
+			// a node cannot stand for itself or for one of its own descendants: that would be a cycle
+			for ancestor := anchorNode; ancestor != nil; ancestor = ancestor.Parent {
+				if ancestor == candidate {
+					return Context{}, fmt.Errorf("cannot set alias to '%v': the anchor is the node itself or inside it", aliasName)
+				}
+			}
 			candidate.Kind = AliasNode
 			candidate.Value = aliasName
 			candidate.Alias = anchorNode
